@@ -134,7 +134,7 @@ func checkC05(c *vkit.Ctx) {
 	}
 	rounds := 1
 	if c.Thorough() {
-		rounds = 6
+		rounds = 20
 	}
 	total := len(procs) * rounds
 	for i := 0; i < total; i++ {
